@@ -67,7 +67,8 @@ class Pipe:
         throughput = throughput if throughput is not None else self.throughput
         self._add_subscriber(identifier, throughput)
         try:
-            while transferred < total:
+            # run at least one window, so that zero volume postpones as well
+            while True:
                 window_start = time.now
                 window_throughput = throughput * self._throughput_scale
                 # Try to delay until we have transferred everything.
@@ -83,6 +84,9 @@ class Pipe:
                     transferred = total
                 window_end = time.now
                 transferred += (window_end - window_start) * window_throughput
+                # not `>=`: 0 * inf is nan for unlimited throughput
+                if not transferred < total:
+                    break
         finally:
             # stop occupying bandwidth however the transfer ends
             self._del_subscriber(identifier)
